@@ -114,6 +114,7 @@ def _tlc_env(trace=None, xmx="3g", extra_env=None, tmpdir=None):
     e = dict(os.environ)
     e["JAVA_TOOL_OPTIONS"] = f"-Xss1g -Xmx{xmx} -XX:ParallelGCThreads=2 -XX:CICompilerCount=2" + (f" -Djava.io.tmpdir={tmpdir}" if tmpdir else "")
     e.setdefault("EXPLAIN", "0")
+    e.setdefault("JVIEW", "all")
     if trace:
         e["TRACE"] = trace
     if extra_env:
@@ -191,12 +192,12 @@ def tlc_generate(module, cfg=None, workers=4, timeout=1800, marker="REPLAY", **k
 _REJ = re.compile(r'<<\s*"REJECT",\s*(\d+)\s*[,>]')
 
 
-def tlc_trace(module, trace, cfg=None, timeout=1800, tag=None, xmx="3g"):
+def tlc_trace(module, trace, cfg=None, timeout=1800, tag=None, xmx="3g", extra_env=None):
     """U3: validate one ndjson trace file. Returns dict(accepted, reject_at, ...)."""
     n_lines = sum(1 for _ in open(trace))
     if n_lines == 0:
         return {"accepted": True, "states": 0, "distinct": 0, "wall": 0.0, "events": 0, "out": ""}
-    r = tlc(module, cfg, workers=1, timeout=timeout, trace=trace, tag=tag, xmx=xmx)
+    r = tlc(module, cfg, workers=1, timeout=timeout, trace=trace, tag=tag, xmx=xmx, extra_env=extra_env)
     out = r["out"]
     r["events"] = n_lines
     rej = None
@@ -241,7 +242,7 @@ def episode_bounds(lines, idx0):
     return start, end
 
 
-def validate_file(module, trace, prop, tier, seed, cfg=None, max_rejects=4, timeout=1800, tagbase="v"):
+def validate_file(module, trace, prop, tier, seed, cfg=None, max_rejects=4, timeout=1800, tagbase="v", extra_env=None):
     """Validate a trace file; on rejection cut the episode into a replay file and continue after it.
     Returns dict(states, transitions, events, episodes, rejects=[{replay, event, index}])."""
     lines = read_lines(trace)
@@ -251,7 +252,7 @@ def validate_file(module, trace, prop, tier, seed, cfg=None, max_rejects=4, time
     cur_lines = lines
     k = 0
     while True:
-        r = tlc_trace(module, cur, cfg=cfg, timeout=timeout, tag=f"{tagbase}-{os.path.basename(trace)}-{k}")
+        r = tlc_trace(module, cur, cfg=cfg, timeout=timeout, tag=f"{tagbase}-{os.path.basename(trace)}-{k}", extra_env=extra_env)
         total["states"] += r["distinct"]
         total["transitions"] += max(0, r["states"] - 1)
         total["wall"] += r["wall"]
